@@ -11,29 +11,77 @@
 
   Not covered by a theorem (observed on the implementation by the harness, catch_unwind):
   `clone`, `Debug`, serialization returning normally (derived code, not translated).
+
+  Reading guide.  For every indicator `X` there is
+    * `def xStep (s : X F) : Op F → Option (X F)` — what one client call does to the state
+      (`Op.next x` ↦ `next(x)`, `Op.bar b` ↦ `next(&bar)`, `Op.reset` ↦ `reset()`; the output of
+      the call is dropped, `none` = the call panicked);
+    * `theorem x_total` — for all accepted constructor arguments and EVERY `ops : List (Op F)`:
+      `new` returns `Ok s0`, `runOps xStep s0 ops = some s'` (no call in the sequence panicked)
+      and `X.WF s'`.
+  "Accepted constructor arguments": every period `> 0`; for the constructors that allocate a
+  window (`vec![..; period]`) additionally `period * 8 ≤ isize::MAX`, the modelled capacity
+  limit of `vec!` (beyond it the constructor itself panics with "capacity overflow", see the
+  `new_eq` lemma of the indicator).  Multipliers are arbitrary `m : F` (NaN, ±∞, 0, negative).
+  CommodityChannelIndex, ChandelierExit, MoneyFlowIndex and OnBalanceVolume have no
+  `Next<f64>` impl in Rust: `x.next(1.0)` does not type-check, so `Op.next _` is mapped to
+  "state unchanged" for them.  TrueRange and OnBalanceVolume have no parameters, an
+  infallible `new()` and no structural invariant.
 -/
 import TaRs.Lemmas.Machine
 import TaRs.Lemmas.SimpleMovingAverage
+import TaRs.Lemmas.ExponentialMovingAverage
 import TaRs.Lemmas.WeightedMovingAverage
 import TaRs.Lemmas.StandardDeviation
 import TaRs.Lemmas.MeanAbsoluteDeviation
-import TaRs.Lemmas.RateOfChange
+import TaRs.Lemmas.RelativeStrengthIndex
+import TaRs.Lemmas.Minimum
+import TaRs.Lemmas.Maximum
+import TaRs.Lemmas.FastStochastic
+import TaRs.Lemmas.SlowStochastic
+import TaRs.Lemmas.TrueRange
+import TaRs.Lemmas.AverageTrueRange
+import TaRs.Lemmas.MovingAverageConvergenceDivergence
+import TaRs.Lemmas.PercentagePriceOscillator
+import TaRs.Lemmas.CommodityChannelIndex
 import TaRs.Lemmas.EfficiencyRatio
-import TaRs.Lemmas.MoneyFlowIndex
 import TaRs.Lemmas.BollingerBands
+import TaRs.Lemmas.ChandelierExit
+import TaRs.Lemmas.KeltnerChannel
+import TaRs.Lemmas.RateOfChange
+import TaRs.Lemmas.MoneyFlowIndex
+import TaRs.Lemmas.OnBalanceVolume
 
 namespace TaRs.Props.C12
 open TaRs TaRs.Gen TaRs.Rs
 
-variable {F : Type} [Scalar F]
+/-! ### Helpers (lemma schemas, not property statements) -/
+section Helpers
 
-/-- Lift of the per-operation facts of a windowed single-period indicator.  `mk` is used by
-    the instances below; it is a lemma schema, not a property statement. -/
-theorem lift {S : Type} (stepf : S → Op F → Option S) (WF : S → Prop)
+/-- Lift of the per-operation facts to operation sequences: if every single operation on a
+    `WF` state returns normally and re-establishes `WF`, so does every sequence. -/
+theorem lift {F S : Type} (stepf : S → Op F → Option S) (WF : S → Prop)
     (h : ∀ s op, WF s → ∃ s', stepf s op = some s' ∧ WF s') (s0 : S) (h0 : WF s0) (ops : List (Op F)) :
     ∃ s', runOps stepf s0 ops = some s' ∧ WF s' :=
   runOps_invariant stepf WF h s0 h0 ops
 
+/-- a `next_total`-shaped fact (`∃ r, call = some r ∧ WF r.1 ∧ …`), with the output dropped -/
+private theorem fst_some {S O : Type} {P : S → Prop} {Q : S × O → Prop} {o : Option (S × O)}
+    (h : ∃ r, o = some r ∧ P r.1 ∧ Q r) : ∃ s', o.map (·.1) = some s' ∧ P s' := by
+  obtain ⟨r, hr, hp, _⟩ := h
+  exact ⟨r.1, by simp [hr], hp⟩
+
+/-- a `reset_wf`-shaped fact with the trailing conjuncts dropped -/
+private theorem drop_tail {S : Type} {P Q : S → Prop} {o : Option S}
+    (h : ∃ r, o = some r ∧ P r ∧ Q r) : ∃ s', o = some s' ∧ P s' := by
+  obtain ⟨r, hr, hp, _⟩ := h
+  exact ⟨r, hr, hp⟩
+
+end Helpers
+
+variable {F : Type} [Scalar F]
+
+/-! ### SimpleMovingAverage -/
 section SMA
 def smaStep (s : SimpleMovingAverage F) : Op F → Option (SimpleMovingAverage F)
   | .next x => (s.next x).map (·.1)
@@ -43,23 +91,537 @@ def smaStep (s : SimpleMovingAverage F) : Op F → Option (SimpleMovingAverage F
 theorem sma_total (p : Nat) (hp : 0 < p) (h8 : p * 8 ≤ isizeMax) (ops : List (Op F)) :
     ∃ s0 s', (SimpleMovingAverage.new p : Res (SimpleMovingAverage F)) = .ok s0 ∧
       runOps smaStep s0 ops = some s' ∧ SimpleMovingAverage.WF s' := by
-  refine ⟨SimpleMovingAverage.fresh p, ?_⟩
   have hnew : (SimpleMovingAverage.new p : Res (SimpleMovingAverage F)) = .ok (SimpleMovingAverage.fresh p) := by
     rw [SimpleMovingAverage.new_eq]; simp [Nat.ne_of_gt hp, h8]
   obtain ⟨s', h1, h2⟩ := lift smaStep SimpleMovingAverage.WF (by
     intro s op hs
     cases op with
-    | next x =>
-      obtain ⟨r, hr, hw, _⟩ := SimpleMovingAverage.next_total s x hs
-      exact ⟨r.1, by simp [smaStep, hr], hw⟩
+    | next x => exact fst_some (SimpleMovingAverage.next_total s x hs)
     | bar b =>
-      obtain ⟨r, hr, hw, _⟩ := SimpleMovingAverage.next_total s b.close hs
-      exact ⟨r.1, by simp [smaStep, SimpleMovingAverage.nextBar_eq, hr], hw⟩
+      have := SimpleMovingAverage.next_total s b.close hs
+      rw [← SimpleMovingAverage.nextBar_eq s b] at this
+      exact fst_some this
     | reset =>
-      exact ⟨_, by simp [smaStep, SimpleMovingAverage.reset_eq s hs],
-        SimpleMovingAverage.fresh_wf _ hs.pos hs.small⟩)
+      exact ⟨_, SimpleMovingAverage.reset_eq s hs, SimpleMovingAverage.fresh_wf _ hs.pos hs.small⟩)
     (SimpleMovingAverage.fresh p) (SimpleMovingAverage.fresh_wf p hp h8) ops
-  exact ⟨s', hnew, h1, h2⟩
+  exact ⟨_, s', hnew, h1, h2⟩
 end SMA
+
+/-! ### ExponentialMovingAverage -/
+section EMA
+def emaStep (s : ExponentialMovingAverage F) : Op F → Option (ExponentialMovingAverage F)
+  | .next x => (s.next x).map (·.1)
+  | .bar b => (s.nextBar b).map (·.1)
+  | .reset => s.reset
+
+theorem ema_total (p : Nat) (hp : 0 < p) (ops : List (Op F)) :
+    ∃ s0 s', (ExponentialMovingAverage.new p : Res (ExponentialMovingAverage F)) = .ok s0 ∧
+      runOps emaStep s0 ops = some s' ∧ ExponentialMovingAverage.WF s' := by
+  have hnew : (ExponentialMovingAverage.new p : Res (ExponentialMovingAverage F)) =
+      .ok (ExponentialMovingAverage.fresh p) := by
+    rw [ExponentialMovingAverage.new_eq]; simp [Nat.ne_of_gt hp]
+  obtain ⟨s', h1, h2⟩ := lift emaStep ExponentialMovingAverage.WF (by
+    intro s op hs
+    cases op with
+    | next x => exact fst_some (ExponentialMovingAverage.next_total s x hs)
+    | bar b =>
+      have := ExponentialMovingAverage.next_total s b.close hs
+      rw [← ExponentialMovingAverage.nextBar_eq s b] at this
+      exact fst_some this
+    | reset =>
+      exact ⟨_, ExponentialMovingAverage.reset_eq s hs, ExponentialMovingAverage.fresh_wf _ hs.pos⟩)
+    (ExponentialMovingAverage.fresh p) (ExponentialMovingAverage.fresh_wf p hp) ops
+  exact ⟨_, s', hnew, h1, h2⟩
+end EMA
+
+/-! ### WeightedMovingAverage -/
+section WMA
+def wmaStep (s : WeightedMovingAverage F) : Op F → Option (WeightedMovingAverage F)
+  | .next x => (s.next x).map (·.1)
+  | .bar b => (s.nextBar b).map (·.1)
+  | .reset => s.reset
+
+theorem wma_total (p : Nat) (hp : 0 < p) (h8 : p * 8 ≤ isizeMax) (ops : List (Op F)) :
+    ∃ s0 s', (WeightedMovingAverage.new p : Res (WeightedMovingAverage F)) = .ok s0 ∧
+      runOps wmaStep s0 ops = some s' ∧ WeightedMovingAverage.WF s' := by
+  have hnew : (WeightedMovingAverage.new p : Res (WeightedMovingAverage F)) = .ok (WeightedMovingAverage.fresh p) := by
+    rw [WeightedMovingAverage.new_eq]; simp [Nat.ne_of_gt hp, h8]
+  obtain ⟨s', h1, h2⟩ := lift wmaStep WeightedMovingAverage.WF (by
+    intro s op hs
+    cases op with
+    | next x => exact fst_some (WeightedMovingAverage.next_total s x hs)
+    | bar b =>
+      have := WeightedMovingAverage.next_total s b.close hs
+      rw [← WeightedMovingAverage.nextBar_eq s b] at this
+      exact fst_some this
+    | reset =>
+      exact ⟨_, WeightedMovingAverage.reset_eq s hs, WeightedMovingAverage.fresh_wf _ hs.pos hs.small⟩)
+    (WeightedMovingAverage.fresh p) (WeightedMovingAverage.fresh_wf p hp h8) ops
+  exact ⟨_, s', hnew, h1, h2⟩
+end WMA
+
+/-! ### StandardDeviation -/
+section SD
+def sdStep (s : StandardDeviation F) : Op F → Option (StandardDeviation F)
+  | .next x => (s.next x).map (·.1)
+  | .bar b => (s.nextBar b).map (·.1)
+  | .reset => s.reset
+
+theorem sd_total (p : Nat) (hp : 0 < p) (h8 : p * 8 ≤ isizeMax) (ops : List (Op F)) :
+    ∃ s0 s', (StandardDeviation.new p : Res (StandardDeviation F)) = .ok s0 ∧
+      runOps sdStep s0 ops = some s' ∧ StandardDeviation.WF s' := by
+  have hnew : (StandardDeviation.new p : Res (StandardDeviation F)) = .ok (StandardDeviation.fresh p) := by
+    rw [StandardDeviation.new_eq]; simp [Nat.ne_of_gt hp, h8]
+  obtain ⟨s', h1, h2⟩ := lift sdStep StandardDeviation.WF (by
+    intro s op hs
+    cases op with
+    | next x => exact fst_some (StandardDeviation.next_total s x hs)
+    | bar b =>
+      have := StandardDeviation.next_total s b.close hs
+      rw [← StandardDeviation.nextBar_eq s b] at this
+      exact fst_some this
+    | reset =>
+      exact ⟨_, StandardDeviation.reset_eq s hs, StandardDeviation.fresh_wf _ hs.pos hs.small⟩)
+    (StandardDeviation.fresh p) (StandardDeviation.fresh_wf p hp h8) ops
+  exact ⟨_, s', hnew, h1, h2⟩
+end SD
+
+/-! ### MeanAbsoluteDeviation -/
+section MAD
+def madStep (s : MeanAbsoluteDeviation F) : Op F → Option (MeanAbsoluteDeviation F)
+  | .next x => (s.next x).map (·.1)
+  | .bar b => (s.nextBar b).map (·.1)
+  | .reset => s.reset
+
+theorem mad_total (p : Nat) (hp : 0 < p) (h8 : p * 8 ≤ isizeMax) (ops : List (Op F)) :
+    ∃ s0 s', (MeanAbsoluteDeviation.new p : Res (MeanAbsoluteDeviation F)) = .ok s0 ∧
+      runOps madStep s0 ops = some s' ∧ MeanAbsoluteDeviation.WF s' := by
+  have hnew : (MeanAbsoluteDeviation.new p : Res (MeanAbsoluteDeviation F)) = .ok (MeanAbsoluteDeviation.fresh p) := by
+    rw [MeanAbsoluteDeviation.new_eq]; simp [Nat.ne_of_gt hp, h8]
+  obtain ⟨s', h1, h2⟩ := lift madStep MeanAbsoluteDeviation.WF (by
+    intro s op hs
+    cases op with
+    | next x => exact fst_some (MeanAbsoluteDeviation.next_total s x hs)
+    | bar b =>
+      have := MeanAbsoluteDeviation.next_total s b.close hs
+      rw [← MeanAbsoluteDeviation.nextBar_eq s b] at this
+      exact fst_some this
+    | reset =>
+      exact ⟨_, MeanAbsoluteDeviation.reset_eq s hs, MeanAbsoluteDeviation.fresh_wf _ hs.pos hs.small⟩)
+    (MeanAbsoluteDeviation.fresh p) (MeanAbsoluteDeviation.fresh_wf p hp h8) ops
+  exact ⟨_, s', hnew, h1, h2⟩
+end MAD
+
+/-! ### RelativeStrengthIndex -/
+section RSI
+def rsiStep (s : RelativeStrengthIndex F) : Op F → Option (RelativeStrengthIndex F)
+  | .next x => (s.next x).map (·.1)
+  | .bar b => (s.nextBar b).map (·.1)
+  | .reset => s.reset
+
+theorem rsi_total (p : Nat) (hp : 0 < p) (ops : List (Op F)) :
+    ∃ s0 s', (RelativeStrengthIndex.new p : Res (RelativeStrengthIndex F)) = .ok s0 ∧
+      runOps rsiStep s0 ops = some s' ∧ RelativeStrengthIndex.WF s' := by
+  have hnew : (RelativeStrengthIndex.new p : Res (RelativeStrengthIndex F)) =
+      .ok (RelativeStrengthIndex.fresh p) := by
+    rw [RelativeStrengthIndex.new_eq]; simp [Nat.ne_of_gt hp]
+  obtain ⟨s', h1, h2⟩ := lift rsiStep RelativeStrengthIndex.WF (by
+    intro s op hs
+    cases op with
+    | next x => exact fst_some (RelativeStrengthIndex.next_total s x hs)
+    | bar b => exact fst_some (RelativeStrengthIndex.nextBar_total s b hs)
+    | reset =>
+      have hpos : 0 < s.period := by have := hs.up.pos; have := hs.up_period; omega
+      exact ⟨_, RelativeStrengthIndex.reset_eq s hs, RelativeStrengthIndex.fresh_wf _ hpos⟩)
+    (RelativeStrengthIndex.fresh p) (RelativeStrengthIndex.fresh_wf p hp) ops
+  exact ⟨_, s', hnew, h1, h2⟩
+end RSI
+
+/-! ### Minimum -/
+section Minimum
+def minimumStep (s : Minimum F) : Op F → Option (Minimum F)
+  | .next x => (s.next x).map (·.1)
+  | .bar b => (s.nextBar b).map (·.1)
+  | .reset => s.reset
+
+theorem minimum_total (p : Nat) (hp : 0 < p) (h8 : p * 8 ≤ isizeMax) (ops : List (Op F)) :
+    ∃ s0 s', (Minimum.new p : Res (Minimum F)) = .ok s0 ∧
+      runOps minimumStep s0 ops = some s' ∧ Minimum.WF s' := by
+  have hnew : (Minimum.new p : Res (Minimum F)) = .ok (Minimum.fresh p) := by
+    rw [Minimum.new_eq]; simp [Nat.ne_of_gt hp, h8]
+  obtain ⟨s', h1, h2⟩ := lift minimumStep Minimum.WF (by
+    intro s op hs
+    cases op with
+    | next x => exact fst_some (Minimum.next_total s x hs)
+    | bar b => exact fst_some (Minimum.nextBar_total s b hs)
+    | reset => exact drop_tail (Minimum.reset_wf s hs))
+    (Minimum.fresh p) (Minimum.fresh_wf p hp h8) ops
+  exact ⟨_, s', hnew, h1, h2⟩
+end Minimum
+
+/-! ### Maximum -/
+section Maximum
+def maximumStep (s : Maximum F) : Op F → Option (Maximum F)
+  | .next x => (s.next x).map (·.1)
+  | .bar b => (s.nextBar b).map (·.1)
+  | .reset => s.reset
+
+theorem maximum_total (p : Nat) (hp : 0 < p) (h8 : p * 8 ≤ isizeMax) (ops : List (Op F)) :
+    ∃ s0 s', (Maximum.new p : Res (Maximum F)) = .ok s0 ∧
+      runOps maximumStep s0 ops = some s' ∧ Maximum.WF s' := by
+  have hnew : (Maximum.new p : Res (Maximum F)) = .ok (Maximum.fresh p) := by
+    rw [Maximum.new_eq]; simp [Nat.ne_of_gt hp, h8]
+  obtain ⟨s', h1, h2⟩ := lift maximumStep Maximum.WF (by
+    intro s op hs
+    cases op with
+    | next x => exact fst_some (Maximum.next_total s x hs)
+    | bar b => exact fst_some (Maximum.nextBar_total s b hs)
+    | reset => exact drop_tail (Maximum.reset_wf s hs))
+    (Maximum.fresh p) (Maximum.fresh_wf p hp h8) ops
+  exact ⟨_, s', hnew, h1, h2⟩
+end Maximum
+
+/-! ### FastStochastic -/
+section FastStochastic
+def fastStochStep (s : FastStochastic F) : Op F → Option (FastStochastic F)
+  | .next x => (s.next x).map (·.1)
+  | .bar b => (s.nextBar b).map (·.1)
+  | .reset => s.reset
+
+theorem fastStoch_total (p : Nat) (hp : 0 < p) (h8 : p * 8 ≤ isizeMax) (ops : List (Op F)) :
+    ∃ s0 s', (FastStochastic.new p : Res (FastStochastic F)) = .ok s0 ∧
+      runOps fastStochStep s0 ops = some s' ∧ FastStochastic.WF s' := by
+  have hnew : (FastStochastic.new p : Res (FastStochastic F)) = .ok (FastStochastic.fresh p) := by
+    rw [FastStochastic.new_eq]; simp [Nat.ne_of_gt hp, h8]
+  obtain ⟨s', h1, h2⟩ := lift fastStochStep FastStochastic.WF (by
+    intro s op hs
+    cases op with
+    | next x => exact fst_some (FastStochastic.next_total s x hs)
+    | bar b => exact fst_some (FastStochastic.nextBar_total s b hs)
+    | reset => exact drop_tail (FastStochastic.reset_wf s hs))
+    (FastStochastic.fresh p) (FastStochastic.fresh_wf p hp h8) ops
+  exact ⟨_, s', hnew, h1, h2⟩
+end FastStochastic
+
+/-! ### SlowStochastic -/
+section SlowStochastic
+def slowStochStep (s : SlowStochastic F) : Op F → Option (SlowStochastic F)
+  | .next x => (s.next x).map (·.1)
+  | .bar b => (s.nextBar b).map (·.1)
+  | .reset => s.reset
+
+/-- only the stochastic window is allocated, so only `sp` has a capacity side condition -/
+theorem slowStoch_total (sp ep : Nat) (hs : 0 < sp) (h8 : sp * 8 ≤ isizeMax) (he : 0 < ep)
+    (ops : List (Op F)) :
+    ∃ s0 s', (SlowStochastic.new sp ep : Res (SlowStochastic F)) = .ok s0 ∧
+      runOps slowStochStep s0 ops = some s' ∧ SlowStochastic.WF s' := by
+  have hnew : (SlowStochastic.new sp ep : Res (SlowStochastic F)) = .ok (SlowStochastic.fresh sp ep) := by
+    rw [SlowStochastic.new_eq]; simp [Nat.ne_of_gt hs, Nat.ne_of_gt he, h8]
+  obtain ⟨s', h1, h2⟩ := lift slowStochStep SlowStochastic.WF (by
+    intro s op hw
+    cases op with
+    | next x => exact fst_some (SlowStochastic.next_total s x hw)
+    | bar b => exact fst_some (SlowStochastic.nextBar_total s b hw)
+    | reset => exact drop_tail (SlowStochastic.reset_wf s hw))
+    (SlowStochastic.fresh sp ep) (SlowStochastic.fresh_wf sp ep hs h8 he) ops
+  exact ⟨_, s', hnew, h1, h2⟩
+end SlowStochastic
+
+/-! ### TrueRange (no parameters, infallible `new()`, no invariant) -/
+section TrueRange
+def trStep (s : TrueRange F) : Op F → Option (TrueRange F)
+  | .next x => (s.next x).map (·.1)
+  | .bar b => (s.nextBar b).map (·.1)
+  | .reset => s.reset
+
+theorem tr_total (ops : List (Op F)) :
+    ∃ s', runOps trStep (TrueRange.new : TrueRange F) ops = some s' := by
+  obtain ⟨s', h1, _⟩ := lift trStep (fun _ => True) (by
+    intro s op _
+    cases op with
+    | next x => exact fst_some (Q := fun _ => True) ⟨_, TrueRange.next_eq s x, trivial, trivial⟩
+    | bar b => exact fst_some (Q := fun _ => True) ⟨_, TrueRange.nextBar_eq s b, trivial, trivial⟩
+    | reset => exact ⟨_, TrueRange.reset_eq s, trivial⟩)
+    (TrueRange.new : TrueRange F) trivial ops
+  exact ⟨s', h1⟩
+end TrueRange
+
+/-! ### AverageTrueRange -/
+section ATR
+def atrStep (s : AverageTrueRange F) : Op F → Option (AverageTrueRange F)
+  | .next x => (s.next x).map (·.1)
+  | .bar b => (s.nextBar b).map (·.1)
+  | .reset => s.reset
+
+theorem atr_total (p : Nat) (hp : 0 < p) (ops : List (Op F)) :
+    ∃ s0 s', (AverageTrueRange.new p : Res (AverageTrueRange F)) = .ok s0 ∧
+      runOps atrStep s0 ops = some s' ∧ AverageTrueRange.WF s' := by
+  have hnew : (AverageTrueRange.new p : Res (AverageTrueRange F)) = .ok (AverageTrueRange.fresh p) := by
+    rw [AverageTrueRange.new_eq]; simp [Nat.ne_of_gt hp]
+  obtain ⟨s', h1, h2⟩ := lift atrStep AverageTrueRange.WF (by
+    intro s op hs
+    cases op with
+    | next x => exact fst_some (AverageTrueRange.next_total s x hs)
+    | bar b => exact fst_some (AverageTrueRange.nextBar_total s b hs)
+    | reset =>
+      have hpos : 0 < s.period_fn := by rw [AverageTrueRange.period_fn_eq]; exact hs.ema.pos
+      exact ⟨_, AverageTrueRange.reset_eq s hs, AverageTrueRange.fresh_wf _ hpos⟩)
+    (AverageTrueRange.fresh p) (AverageTrueRange.fresh_wf p hp) ops
+  exact ⟨_, s', hnew, h1, h2⟩
+end ATR
+
+/-! ### MovingAverageConvergenceDivergence -/
+section MACD
+def macdStep (s : MovingAverageConvergenceDivergence F) :
+    Op F → Option (MovingAverageConvergenceDivergence F)
+  | .next x => (s.next x).map (·.1)
+  | .bar b => (s.nextBar b).map (·.1)
+  | .reset => s.reset
+
+theorem macd_total (fp sp gp : Nat) (hf : 0 < fp) (hs : 0 < sp) (hg : 0 < gp) (ops : List (Op F)) :
+    ∃ s0 s', (MovingAverageConvergenceDivergence.new fp sp gp :
+        Res (MovingAverageConvergenceDivergence F)) = .ok s0 ∧
+      runOps macdStep s0 ops = some s' ∧ MovingAverageConvergenceDivergence.WF s' := by
+  have hnew : (MovingAverageConvergenceDivergence.new fp sp gp :
+      Res (MovingAverageConvergenceDivergence F)) =
+      .ok (MovingAverageConvergenceDivergence.fresh fp sp gp) := by
+    rw [MovingAverageConvergenceDivergence.new_eq]
+    simp [Nat.ne_of_gt hf, Nat.ne_of_gt hs, Nat.ne_of_gt hg]
+  obtain ⟨s', h1, h2⟩ := lift macdStep MovingAverageConvergenceDivergence.WF (by
+    intro s op hw
+    cases op with
+    | next x => exact fst_some (MovingAverageConvergenceDivergence.next_total s x hw)
+    | bar b => exact fst_some (MovingAverageConvergenceDivergence.nextBar_total s b hw)
+    | reset =>
+      exact ⟨_, MovingAverageConvergenceDivergence.reset_eq s hw,
+        MovingAverageConvergenceDivergence.fresh_wf _ _ _ hw.fast.pos hw.slow.pos hw.signal.pos⟩)
+    (MovingAverageConvergenceDivergence.fresh fp sp gp)
+    (MovingAverageConvergenceDivergence.fresh_wf fp sp gp hf hs hg) ops
+  exact ⟨_, s', hnew, h1, h2⟩
+end MACD
+
+/-! ### PercentagePriceOscillator -/
+section PPO
+def ppoStep (s : PercentagePriceOscillator F) : Op F → Option (PercentagePriceOscillator F)
+  | .next x => (s.next x).map (·.1)
+  | .bar b => (s.nextBar b).map (·.1)
+  | .reset => s.reset
+
+theorem ppo_total (fp sp gp : Nat) (hf : 0 < fp) (hs : 0 < sp) (hg : 0 < gp) (ops : List (Op F)) :
+    ∃ s0 s', (PercentagePriceOscillator.new fp sp gp : Res (PercentagePriceOscillator F)) = .ok s0 ∧
+      runOps ppoStep s0 ops = some s' ∧ PercentagePriceOscillator.WF s' := by
+  have hnew : (PercentagePriceOscillator.new fp sp gp : Res (PercentagePriceOscillator F)) =
+      .ok (PercentagePriceOscillator.fresh fp sp gp) := by
+    rw [PercentagePriceOscillator.new_eq]
+    simp [Nat.ne_of_gt hf, Nat.ne_of_gt hs, Nat.ne_of_gt hg]
+  obtain ⟨s', h1, h2⟩ := lift ppoStep PercentagePriceOscillator.WF (by
+    intro s op hw
+    cases op with
+    | next x => exact fst_some (PercentagePriceOscillator.next_total s x hw)
+    | bar b => exact fst_some (PercentagePriceOscillator.nextBar_total s b hw)
+    | reset =>
+      exact ⟨_, PercentagePriceOscillator.reset_eq s hw,
+        PercentagePriceOscillator.fresh_wf _ _ _ hw.fast.pos hw.slow.pos hw.signal.pos⟩)
+    (PercentagePriceOscillator.fresh fp sp gp)
+    (PercentagePriceOscillator.fresh_wf fp sp gp hf hs hg) ops
+  exact ⟨_, s', hnew, h1, h2⟩
+end PPO
+
+/-! ### CommodityChannelIndex -/
+section CCI
+def cciStep (s : CommodityChannelIndex F) : Op F → Option (CommodityChannelIndex F)
+  -- the Rust type has no `Next<f64>` impl: `cci.next(x)` cannot be written
+  | .next _ => some s
+  | .bar b => (s.nextBar b).map (·.1)
+  | .reset => s.reset
+
+theorem cci_total (p : Nat) (hp : 0 < p) (h8 : p * 8 ≤ isizeMax) (ops : List (Op F)) :
+    ∃ s0 s', (CommodityChannelIndex.new p : Res (CommodityChannelIndex F)) = .ok s0 ∧
+      runOps cciStep s0 ops = some s' ∧ CommodityChannelIndex.WF s' := by
+  have hnew : (CommodityChannelIndex.new p : Res (CommodityChannelIndex F)) = .ok (CommodityChannelIndex.fresh p) := by
+    rw [CommodityChannelIndex.new_eq]; simp [Nat.ne_of_gt hp, h8]
+  obtain ⟨s', h1, h2⟩ := lift cciStep CommodityChannelIndex.WF (by
+    intro s op hs
+    cases op with
+    | next x => exact ⟨s, rfl, hs⟩
+    | bar b => exact fst_some (CommodityChannelIndex.nextBar_total s b hs)
+    | reset =>
+      have hpos : 0 < s.period_fn := by rw [CommodityChannelIndex.period_fn_eq]; exact hs.sma.pos
+      have hsm : s.period_fn * 8 ≤ isizeMax := by rw [CommodityChannelIndex.period_fn_eq]; exact hs.sma.small
+      exact ⟨_, CommodityChannelIndex.reset_eq s hs, CommodityChannelIndex.fresh_wf _ hpos hsm⟩)
+    (CommodityChannelIndex.fresh p) (CommodityChannelIndex.fresh_wf p hp h8) ops
+  exact ⟨_, s', hnew, h1, h2⟩
+end CCI
+
+/-! ### EfficiencyRatio -/
+section ER
+def erStep (s : EfficiencyRatio F) : Op F → Option (EfficiencyRatio F)
+  | .next x => (s.next x).map (·.1)
+  | .bar b => (s.nextBar b).map (·.1)
+  | .reset => s.reset
+
+theorem er_total (p : Nat) (hp : 0 < p) (h8 : p * 8 ≤ isizeMax) (ops : List (Op F)) :
+    ∃ s0 s', (EfficiencyRatio.new p : Res (EfficiencyRatio F)) = .ok s0 ∧
+      runOps erStep s0 ops = some s' ∧ EfficiencyRatio.WF s' := by
+  have hnew : (EfficiencyRatio.new p : Res (EfficiencyRatio F)) = .ok (EfficiencyRatio.fresh p) := by
+    rw [EfficiencyRatio.new_eq]; simp [Nat.ne_of_gt hp, h8]
+  obtain ⟨s', h1, h2⟩ := lift erStep EfficiencyRatio.WF (by
+    intro s op hs
+    cases op with
+    | next x => exact fst_some (EfficiencyRatio.next_total s x hs)
+    | bar b =>
+      have := EfficiencyRatio.next_total s b.close hs
+      rw [← EfficiencyRatio.nextBar_eq s b] at this
+      exact fst_some this
+    | reset =>
+      exact ⟨_, EfficiencyRatio.reset_eq s hs, EfficiencyRatio.fresh_wf _ hs.pos hs.small⟩)
+    (EfficiencyRatio.fresh p) (EfficiencyRatio.fresh_wf p hp h8) ops
+  exact ⟨_, s', hnew, h1, h2⟩
+end ER
+
+/-! ### BollingerBands -/
+section BB
+def bbStep (s : BollingerBands F) : Op F → Option (BollingerBands F)
+  | .next x => (s.next x).map (·.1)
+  | .bar b => (s.nextBar b).map (·.1)
+  | .reset => s.reset
+
+theorem bb_total (p : Nat) (m : F) (hp : 0 < p) (h8 : p * 8 ≤ isizeMax) (ops : List (Op F)) :
+    ∃ s0 s', (BollingerBands.new p m : Res (BollingerBands F)) = .ok s0 ∧
+      runOps bbStep s0 ops = some s' ∧ BollingerBands.WF s' := by
+  have hnew : (BollingerBands.new p m : Res (BollingerBands F)) = .ok (BollingerBands.fresh p m) := by
+    rw [BollingerBands.new_eq]; simp [Nat.ne_of_gt hp, h8]
+  obtain ⟨s', h1, h2⟩ := lift bbStep BollingerBands.WF (by
+    intro s op hs
+    cases op with
+    | next x => exact fst_some (BollingerBands.next_total s x hs)
+    | bar b =>
+      have := BollingerBands.next_total s b.close hs
+      rw [← BollingerBands.nextBar_eq s b] at this
+      exact fst_some this
+    | reset =>
+      have hpos : 0 < s.period := by have := hs.sd.pos; have := hs.per; omega
+      have hsm : s.period * 8 ≤ isizeMax := by have := hs.sd.small; have := hs.per; omega
+      exact ⟨_, BollingerBands.reset_eq s hs, BollingerBands.fresh_wf _ _ hpos hsm⟩)
+    (BollingerBands.fresh p m) (BollingerBands.fresh_wf p m hp h8) ops
+  exact ⟨_, s', hnew, h1, h2⟩
+end BB
+
+/-! ### ChandelierExit -/
+section CE
+def ceStep (s : ChandelierExit F) : Op F → Option (ChandelierExit F)
+  -- the Rust type has no `Next<f64>` impl: `ce.next(x)` cannot be written
+  | .next _ => some s
+  | .bar b => (s.nextBar b).map (·.1)
+  | .reset => s.reset
+
+theorem ce_total (p : Nat) (m : F) (hp : 0 < p) (h8 : p * 8 ≤ isizeMax) (ops : List (Op F)) :
+    ∃ s0 s', (ChandelierExit.new p m : Res (ChandelierExit F)) = .ok s0 ∧
+      runOps ceStep s0 ops = some s' ∧ ChandelierExit.WF s' := by
+  have hnew : (ChandelierExit.new p m : Res (ChandelierExit F)) = .ok (ChandelierExit.fresh p m) := by
+    rw [ChandelierExit.new_eq]; simp [Nat.ne_of_gt hp, h8]
+  obtain ⟨s', h1, h2⟩ := lift ceStep ChandelierExit.WF (by
+    intro s op hs
+    cases op with
+    | next x => exact ⟨s, rfl, hs⟩
+    | bar b => exact fst_some (ChandelierExit.nextBar_total s b hs)
+    | reset => exact drop_tail (ChandelierExit.reset_wf s hs))
+    (ChandelierExit.fresh p m) (ChandelierExit.fresh_wf p m hp h8) ops
+  exact ⟨_, s', hnew, h1, h2⟩
+end CE
+
+/-! ### KeltnerChannel -/
+section KC
+def kcStep (s : KeltnerChannel F) : Op F → Option (KeltnerChannel F)
+  | .next x => (s.next x).map (·.1)
+  | .bar b => (s.nextBar b).map (·.1)
+  | .reset => s.reset
+
+theorem kc_total (p : Nat) (m : F) (hp : 0 < p) (ops : List (Op F)) :
+    ∃ s0 s', (KeltnerChannel.new p m : Res (KeltnerChannel F)) = .ok s0 ∧
+      runOps kcStep s0 ops = some s' ∧ KeltnerChannel.WF s' := by
+  have hnew : (KeltnerChannel.new p m : Res (KeltnerChannel F)) = .ok (KeltnerChannel.fresh p m) := by
+    rw [KeltnerChannel.new_eq]; simp [Nat.ne_of_gt hp]
+  obtain ⟨s', h1, h2⟩ := lift kcStep KeltnerChannel.WF (by
+    intro s op hs
+    cases op with
+    | next x => exact fst_some (KeltnerChannel.next_total s x hs)
+    | bar b => exact fst_some (KeltnerChannel.nextBar_total s b hs)
+    | reset =>
+      have hpos : 0 < s.period := by have := hs.ema.pos; have := hs.ema_period; omega
+      exact ⟨_, KeltnerChannel.reset_eq s hs, KeltnerChannel.fresh_wf _ _ hpos⟩)
+    (KeltnerChannel.fresh p m) (KeltnerChannel.fresh_wf p m hp) ops
+  exact ⟨_, s', hnew, h1, h2⟩
+end KC
+
+/-! ### RateOfChange -/
+section ROC
+def rocStep (s : RateOfChange F) : Op F → Option (RateOfChange F)
+  | .next x => (s.next x).map (·.1)
+  | .bar b => (s.nextBar b).map (·.1)
+  | .reset => s.reset
+
+theorem roc_total (p : Nat) (hp : 0 < p) (h8 : p * 8 ≤ isizeMax) (ops : List (Op F)) :
+    ∃ s0 s', (RateOfChange.new p : Res (RateOfChange F)) = .ok s0 ∧
+      runOps rocStep s0 ops = some s' ∧ RateOfChange.WF s' := by
+  have hnew : (RateOfChange.new p : Res (RateOfChange F)) = .ok (RateOfChange.fresh p) := by
+    rw [RateOfChange.new_eq]; simp [Nat.ne_of_gt hp, h8]
+  obtain ⟨s', h1, h2⟩ := lift rocStep RateOfChange.WF (by
+    intro s op hs
+    cases op with
+    | next x => exact fst_some (RateOfChange.next_total s x hs)
+    | bar b =>
+      have := RateOfChange.next_total s b.close hs
+      rw [← RateOfChange.nextBar_eq s b] at this
+      exact fst_some this
+    | reset =>
+      exact ⟨_, RateOfChange.reset_eq s hs, RateOfChange.fresh_wf _ hs.pos hs.small⟩)
+    (RateOfChange.fresh p) (RateOfChange.fresh_wf p hp h8) ops
+  exact ⟨_, s', hnew, h1, h2⟩
+end ROC
+
+/-! ### MoneyFlowIndex -/
+section MFI
+def mfiStep (s : MoneyFlowIndex F) : Op F → Option (MoneyFlowIndex F)
+  -- the Rust type has no `Next<f64>` impl: `mfi.next(x)` cannot be written
+  | .next _ => some s
+  | .bar b => (s.nextBar b).map (·.1)
+  | .reset => s.reset
+
+theorem mfi_total (p : Nat) (hp : 0 < p) (h8 : p * 8 ≤ isizeMax) (ops : List (Op F)) :
+    ∃ s0 s', (MoneyFlowIndex.new p : Res (MoneyFlowIndex F)) = .ok s0 ∧
+      runOps mfiStep s0 ops = some s' ∧ MoneyFlowIndex.WF s' := by
+  have hnew : (MoneyFlowIndex.new p : Res (MoneyFlowIndex F)) = .ok (MoneyFlowIndex.fresh p) := by
+    rw [MoneyFlowIndex.new_eq]; simp [Nat.ne_of_gt hp, h8]
+  obtain ⟨s', h1, h2⟩ := lift mfiStep MoneyFlowIndex.WF (by
+    intro s op hs
+    cases op with
+    | next x => exact ⟨s, rfl, hs⟩
+    | bar b => exact fst_some (MoneyFlowIndex.nextBar_total s b hs)
+    | reset =>
+      exact ⟨_, MoneyFlowIndex.reset_eq s hs, MoneyFlowIndex.fresh_wf _ hs.pos hs.small⟩)
+    (MoneyFlowIndex.fresh p) (MoneyFlowIndex.fresh_wf p hp h8) ops
+  exact ⟨_, s', hnew, h1, h2⟩
+end MFI
+
+/-! ### OnBalanceVolume (no parameters, infallible `new()`, no invariant) -/
+section OBV
+def obvStep (s : OnBalanceVolume F) : Op F → Option (OnBalanceVolume F)
+  -- the Rust type has no `Next<f64>` impl: `obv.next(x)` cannot be written
+  | .next _ => some s
+  | .bar b => (s.nextBar b).map (·.1)
+  | .reset => s.reset
+
+theorem obv_total (ops : List (Op F)) :
+    ∃ s', runOps obvStep (OnBalanceVolume.new : OnBalanceVolume F) ops = some s' := by
+  obtain ⟨s', h1, _⟩ := lift obvStep (fun _ => True) (by
+    intro s op _
+    cases op with
+    | next x => exact ⟨s, rfl, trivial⟩
+    | bar b => exact fst_some (Q := fun _ => True) ⟨_, OnBalanceVolume.nextBar_eq s b, trivial, trivial⟩
+    | reset => exact ⟨_, OnBalanceVolume.reset_eq s, trivial⟩)
+    (OnBalanceVolume.new : OnBalanceVolume F) trivial ops
+  exact ⟨s', h1⟩
+end OBV
 
 end TaRs.Props.C12
